@@ -25,3 +25,28 @@ MUTANTS = [
  dict(id='C18-benign-rename', props=['C18'], expect='SILENT',
       edits=[(CP, 'crc32Value, err := readUint32Control(s, "crc32")\n\tif err != nil {\n\t\treturn msg, fmt.Errorf("failed to read crc32: %w", err)\n\t}\n\tmsg.CRC32 = crc32Value', 'sum, err := readUint32Control(s, "crc32")\n\tif err != nil {\n\t\treturn msg, fmt.Errorf("failed to read crc32: %w", err)\n\t}\n\tmsg.CRC32 = sum')]),
 ]
+MS = 'internal/transfer/multistream.go'
+MP = 'internal/transfer/manifestproto.go'
+SC = 'internal/transfer/sidecar.go'
+MUTANTS += [
+ dict(id='C19-offset-by-len', props=['C19'], expect='R-OFFSET/offset/transfer.RecvManifestMultiStream',
+      edits=[(MS, 'offset := int64(chunkIndex) * int64(state.chunkSize)\n\t\t\t\tif err := writeAtWithTimeout', 'offset := int64(chunkIndex) * int64(chunkLen)\n\t\t\t\tif err := writeAtWithTimeout')]),
+ dict(id='C19-offset-32bit', props=['C19'], expect='R-OFFSET/offset/transfer.SendManifestMultiStream',
+      edits=[(MS, 'offset := int64(chunkIndex) * int64(state.chunkSize)\n\t\t\t\tn, err := readAtWithPool', 'offset := int64(chunkIndex * state.chunkSize)\n\t\t\t\tn, err := readAtWithPool')]),
+ dict(id='C19-ceil-no-minus-one', props=['C19'], expect='R-GEOM/chunk-count/transfer.RecvManifestMultiStream$handleFileBegin',
+      edits=[(MS, 'totalChunks = uint32((int64(begin.FileSize) + int64(begin.ChunkSize) - 1) / int64(begin.ChunkSize))\n\t\t}\n\t\tstate := &recvFileStateMux{', 'totalChunks = uint32((int64(begin.FileSize) + int64(begin.ChunkSize)) / int64(begin.ChunkSize))\n\t\t}\n\t\tstate := &recvFileStateMux{')]),
+ dict(id='C19-floor-div', props=['C19'], expect='R-GEOM/chunk-count/transfer.chunkTotal',
+      edits=[(MS, 'return uint32((fileSize + int64(chunkSize) - 1) / int64(chunkSize))', 'return uint32(fileSize/int64(chunkSize)) + 1')]),
+ dict(id='C19-sidecar-clamp-back', props=['C19'], expect='R-GEOM/count-adjust/transfer.CreateSidecar',
+      edits=[(SC, 'totalChunks := uint32((fileSize + int64(chunkSize) - 1) / int64(chunkSize))\n', 'totalChunks := uint32((fileSize + int64(chunkSize) - 1) / int64(chunkSize))\n\tif totalChunks == 0 {\n\t\ttotalChunks = 1\n\t}\n')]),
+ dict(id='C19-drop-len-bound', props=['C19'], expect='R-TILE/write-bounds/transfer.RecvManifestMultiStream$4/len<=chunkSize',
+      edits=[(MS, 'if state.chunkSize > 0 && chunkLen > state.chunkSize {', 'if state.chunkSize > 0 && chunkLen > state.chunkSize*2 {')]),
+ dict(id='C19-drop-idx-bound', props=['C19'], expect='R-TILE/write-bounds/transfer.RecvManifestMultiStream$4/idx<totalChunks',
+      edits=[(MS, 'if state.totalChunks > 0 && chunkIndex >= state.totalChunks {', 'if state.totalChunks > 0 && chunkIndex > state.totalChunks {')]),
+ dict(id='C19-tail-len-unguarded', props=['C19'], expect='R-TILE/narrow-rem/transfer.chunkSizeForIndex',
+      edits=[(MS, 'if remaining < int64(chunkSize) {\n\t\treturn uint32(remaining)\n\t}\n\treturn chunkSize', 'if remaining < int64(chunkSize) || idx == 0 {\n\t\treturn uint32(remaining)\n\t}\n\treturn chunkSize')]),
+ dict(id='C19-benign-use-helper', props=['C19'], expect='SILENT',
+      edits=[(MS, 'totalChunks := uint32(0)\n\t\tif begin.ChunkSize > 0 {\n\t\t\ttotalChunks = uint32((int64(begin.FileSize) + int64(begin.ChunkSize) - 1) / int64(begin.ChunkSize))\n\t\t}\n\t\tstate := &recvFileStateMux{', 'totalChunks := chunkTotal(int64(begin.FileSize), begin.ChunkSize)\n\t\tstate := &recvFileStateMux{')]),
+ dict(id='C19-benign-rename-offset', props=['C19'], expect='SILENT',
+      edits=[(MS, 'offset := int64(chunkIndex) * int64(state.chunkSize)\n\t\t\t\tif err := writeAtWithTimeout(recvCtx, f, buf[:chunkLen], offset, state.item.RelPath)', 'pos := int64(state.chunkSize) * int64(chunkIndex)\n\t\t\t\tif err := writeAtWithTimeout(recvCtx, f, buf[:chunkLen], pos, state.item.RelPath)')]),
+]
